@@ -15,7 +15,7 @@ use vmodel::*;
 pub fn spec() -> PropSpec {
     PropSpec {
         id: "C10",
-        rule: "cases: (a, m) with m >= 1 drawn from modulus classes {vmodel odd classes (1, 3, 2^B-1, 2^(B-1)+1, ~2^B/3, small primes, zero high limbs, 2^B-c, top-limb edges, random odd), 2^k and s*2^k with k uniform over 0..B (plus limb-boundary bias), p*q / p1*p2 / p*q*2^k with a known prime factor, small even, random} and a from {0, 1, m-1, a >= m (m, m+1, MAX, m+r, largest lift), multiple of a known prime factor of m, unit*2^j (shares only 2 with an even m), r*2^z with z >= 62, constructed unit, related to m, residue classes, random}; every inversion API form of the width is checked on the same (a, m) against gcd by Euclid (is_some <=> gcd = 1) and a*x = 1 (mod m), x < m for m >= 2 (Montgomery forms: retrieved values multiply to 1 mod m; adjusted inverter: a*x = A mod m). mod-2^k sub-checks: (a, k) with k uniform in 0..=B plus a sweep of k (all k for <= 256 bits, limb-boundary set otherwise). gcd sub-checks: pairs {(0,0), (0,y), (x,x), powers of two, d*u*2^i / d*v*2^j, x and x±1, Fibonacci pairs, y=k*x, small-magnitude negatives, signed extremes, related shapes}, every gcd form (Uint, Odd<Uint>, Int, Int x Uint, Uint x Int, BoxedUint, Odd<BoxedUint>) against Euclid on the magnitudes, ct == vartime. non-trivial (inversion): gcd(a,m) != 1, or m even (k >= 1), or a >= m, or a has >= 62 trailing zeros (mod 2^k: k >= 1 or a even); (gcd): gcd != 1, or an operand even or zero or negative (two's complement), or >= 62 trailing zeros. distinct by the operand limbs (+ k / adjuster / params flavour).",
+        rule: "cases: (a, m) with m >= 1 drawn from modulus classes {vmodel odd classes (1, 3, 2^B-1, 2^(B-1)+1, ~2^B/3, small primes, zero high limbs, 2^B-c, top-limb edges, random odd), 2^k and s*2^k with k uniform over 0..B (plus limb-boundary bias), p*q / p1*p2 / p*q*2^k with a known prime factor, small even, random} and a from {0, 1, m-1, a >= m (m, m+1, MAX, m+r, largest lift), multiple of a known prime factor of m, unit*2^j (shares only 2 with an even m), r*2^z with z >= 62, constructed unit, related to m, residue classes, random}; every inversion API form of the width is checked on the same (a, m) against gcd by Euclid (is_some <=> gcd = 1) and a*x = 1 (mod m), x < m for m >= 2 (Montgomery forms: retrieved values multiply to 1 mod m; adjusted inverter: a*x = A mod m). mod-2^k sub-checks: (a, k) with k uniform in 0..=B plus a sweep of k (all k for <= 256 bits, limb-boundary set otherwise). gcd sub-checks: pairs {(0,0), (0,y), (x,x), powers of two, d*u*2^i / d*v*2^j, x and x±1, Fibonacci pairs, y=k*x, small-magnitude negatives, signed extremes, related shapes}, every gcd form (Uint, Odd<Uint>, Int, Int x Uint, Uint x Int, BoxedUint, Odd<BoxedUint>) against Euclid on the magnitudes, ct == vartime. non-trivial (inversion): gcd(a,m) != 1 (also for the two's-complement reading of the same limbs used by the Int forms), or m even (k >= 1), or a >= m, or the number handed to the Bernstein-Yang iteration (a; for Montgomery forms the representation a*2^B mod m) has >= 62 trailing zeros (mod 2^k sub-checks: k >= 1 or a even); (gcd): gcd != 1, or an operand even or zero or negative (two's complement), or >= 62 trailing zeros. distinct by the operand limbs (+ k / adjuster / params flavour).",
         assumptions: vec![
             "num-bigint division / multiplication are correct (the oracle is Euclid's algorithm written in the harness on BigUint)".into(),
             "bridging uses from_words/as_words only".into(),
@@ -28,10 +28,10 @@ pub fn spec() -> PropSpec {
 
 macro_rules! fixed_width {
     ($v:ident, $qi:expr, $qk:expr, $qg:expr, $qm:expr; $(($l:literal, $u:literal)),*) => { $(
-        $v.push(SubCheck::new(format!("fixed/inv/U{}", 64 * $l), $qi, fixed::fixed_inv::<$l, $u>).tape(48 + 5 * $l));
-        $v.push(SubCheck::new(format!("fixed/mod2k/U{}", 64 * $l), $qk, fixed::fixed_mod2k::<$l>).tape(16 + 2 * $l));
-        $v.push(SubCheck::new(format!("fixed/gcd/U{}", 64 * $l), $qg, fixed::fixed_gcd::<$l, $u>).tape(32 + 4 * $l));
-        $v.push(SubCheck::new(format!("fixed/monty/U{}", 64 * $l), $qm, fixed::fixed_monty::<$l, $u>).tape(48 + 4 * $l));
+        $v.push(SubCheck::new(format!("fixed/inv/U{}", 64 * $l), $qi, fixed::fixed_inv::<$l, $u>).tape(64 + 7 * $l));
+        $v.push(SubCheck::new(format!("fixed/mod2k/U{}", 64 * $l), $qk, fixed::fixed_mod2k::<$l>).tape(24 + 3 * $l));
+        $v.push(SubCheck::new(format!("fixed/gcd/U{}", 64 * $l), $qg, fixed::fixed_gcd::<$l, $u>).tape(48 + 5 * $l));
+        $v.push(SubCheck::new(format!("fixed/monty/U{}", 64 * $l), $qm, fixed::fixed_monty::<$l, $u>).tape(64 + 6 * $l));
     )* };
 }
 
@@ -39,13 +39,13 @@ fn subchecks(_ctx: &Ctx) -> Vec<SubCheck> {
     let mut v = vec![];
     // the expensive sub-checks first (one shard each: they bound the wall time)
     for (range, qi, qg, qm) in [((26, 33), 120, 120, 100), ((17, 25), 200, 200, 150), ((5, 16), 900, 900, 600), ((1, 4), 4000, 4000, 3000)] {
-        let tape = 60 + 6 * range.1;
+        let tape = 80 + 7 * range.1;
         let tag = format!("{}..={}", range.0, range.1);
         v.push(SubCheck::new(format!("boxed/inv/{tag}"), qi, boxed::boxed_inv(range)).tape(tape));
         v.push(SubCheck::new(format!("boxed/gcd/{tag}"), qg, boxed::boxed_gcd(range)).tape(tape));
         v.push(SubCheck::new(format!("boxed/monty/{tag}"), qm, boxed::boxed_monty(range)).tape(tape));
     }
-    v.push(SubCheck::new("boxed/mod2k/1..=33", 400, boxed::boxed_mod2k((1, 33))).tape(90));
+    v.push(SubCheck::new("boxed/mod2k/1..=33", 400, boxed::boxed_mod2k((1, 33))).tape(130));
     fixed_width!(v, 120, 60, 120, 100; (32, 35));
     fixed_width!(v, 500, 150, 500, 400; (16, 18));
     fixed_width!(v, 2000, 400, 2000, 1500; (8, 10), (6, 8));
